@@ -56,6 +56,20 @@ structure St where
   adj   : AdjMap
   queue : List Nat
 
+/-! ### `__init__`: the argument `singularities` as an iterable -/
+
+/-- an iterable over vertex ids: `items` = what iterating it yields NOW; `oneShot` = it is exhausted by one iteration (generator
+expression, iterator, `map` / `filter` object) -/
+structure Iter where
+  items   : List Nat
+  oneShot : Bool
+
+/-- `[x for x in it]`, `set(it)`, `list(it)`: the items, and the iterable afterwards -/
+def iterate (it : Iter) : List Nat × Iter := (it.items, if it.oneShot then { it with items := [] } else it)
+
+/-- `set(l)`: duplicates collapse (iteration order of the set not modelled) -/
+def setOf (l : List Nat) : List Nat := l.eraseDups
+
 /-! ### `_build_mesh_with_cuts` -/
 
 /-- `self._output_mesh.faces`, `.vertices` (as ids of the input vertex whose position is copied), `duplicate_vertices` and the
